@@ -248,6 +248,66 @@ EXTREME_TIMES = ["2300-01-01T00:00:00.5Z", "9999-12-31T23:59:59.999999999Z", "00
                  "0000-01-01T00:00:00.9-12:00", "2300-01-01T00:00:00,5Z", "2300-01-01T00:00:00.5"]
 
 
+def _der(tag, body):
+    n = len(body)
+    if n < 0x80:
+        ln = bytes([n])
+    else:
+        b = n.to_bytes((n.bit_length() + 7) // 8, "big")
+        ln = bytes([0x80 | len(b)]) + b
+    return bytes([tag]) + ln + body
+
+
+def gen_wellformed_key_cases(seeds):
+    """perfectly well-formed SubjectPublicKeyInfo documents whose *key* is degenerate: every algorithm identifier the importers
+    know (and one they do not) x key BIT STRINGs that are empty, one byte, a point / modulus of the wrong size, with unused
+    bits, ...  Through the DER and PEM importers under every scheme and through public-key JSON: a value or an error"""
+    oid_rsa = bytes.fromhex("06092a864886f70d010101") + b"\x05\x00"
+    oid_ec = bytes.fromhex("06072a8648ce3d0201") + bytes.fromhex("06082a8648ce3d030107")
+    oid_ec_noparam = bytes.fromhex("06072a8648ce3d0201")
+    oid_ec_p384 = bytes.fromhex("06072a8648ce3d0201") + bytes.fromhex("06052b81040022")
+    oid_ed = bytes.fromhex("06032b6570")
+    oid_x = bytes.fromhex("06032b6571")
+    algs = {"rsa": oid_rsa, "ec": oid_ec, "ec_noparam": oid_ec_noparam, "ec_p384": oid_ec_p384, "ed": oid_ed, "other": oid_x, "empty": b""}
+    rsa_int = lambda v: _der(0x02, v)
+    keys = {
+        "empty": b"", "one_04": b"\x04", "one_00": b"\x00", "p31": b"\x04" + bytes(31), "p32": bytes(32), "p33": b"\x02" + bytes(32),
+        "p64": bytes(64), "p65_04": b"\x04" + bytes(64), "p65_00": bytes(65), "p66": b"\x04" + bytes(65), "p97": b"\x04" + bytes(96),
+        "rsa_empty_seq": _der(0x30, b""), "rsa_empty_ints": _der(0x30, rsa_int(b"") + rsa_int(b"")),
+        "rsa_zero": _der(0x30, rsa_int(b"\x00") + rsa_int(b"\x00")), "rsa_one_int": _der(0x30, rsa_int(b"\x01\x00\x01")),
+        "rsa_small": _der(0x30, rsa_int(b"\x00\xc1" + bytes(62) + b"\x01") + rsa_int(b"\x01\x00\x01")),
+        "rsa_neg": _der(0x30, rsa_int(b"\xff" * 256) + rsa_int(b"\x01\x00\x01")),
+        "rsa_even": _der(0x30, rsa_int(b"\x00\xc0" + bytes(255)) + rsa_int(b"\x02")),
+        "rsa_huge_e": _der(0x30, rsa_int(b"\x00\xc1" + bytes(254) + b"\x01") + rsa_int(b"\x01" + bytes(64))),
+    }
+    cases = []
+    for an, alg in algs.items():
+        for kn, key in keys.items():
+            for unused in (0, 7):
+                if unused and kn not in ("empty", "p65_04", "p32"):
+                    continue
+                for bit_body in ((bytes([unused]) + key), ) + ((b"",) if kn == "empty" and not unused else ()):
+                    spki = _der(0x30, _der(0x30, alg) + _der(0x03, bit_body))
+                    for sch in SCHEMES:
+                        cases.append({"op": "entry", "ep": "spki:" + sch, "data": {"hex": spki.hex()}, "meta": {"cls": "wellformed_degenerate_key"}})
+                    cases.append({"op": "entry", "ep": "pem_spki:" + SCHEMES[(len(cases)) % len(SCHEMES)], "data": {"hex": c12.pem(spki).encode().hex()},
+                                  "meta": {"cls": "wellformed_degenerate_key"}})
+                    for kt, sc in (("rsa", "rsassa-pss-sha256"), ("ecdsa", "ecdsa-sha2-nistp256"), ("ed25519", "ed25519")):
+                        pj = {"keytype": kt, "scheme": sc, "keyid_hash_algorithms": ["sha256", "sha512"],
+                              "keyval": {"public": c12.pem(spki), "private": ""}}
+                        cases.append({"op": "entry", "ep": "pubkey_json", "data": json.dumps(pj), "meta": {"cls": "wellformed_degenerate_key"}})
+                        if an in ("ec", "rsa") and kn in ("empty", "one_04", "rsa_empty_seq"):
+                            lay = scen.mk_layout(None, keys={"ab" * 32: pj})
+                            cases.append({"op": "entry", "ep": "metablock", "data": json.dumps({"signatures": [], "signed": lay}),
+                                          "meta": {"cls": "wellformed_degenerate_key"}})
+    # raw key importers with every short length
+    for n in list(range(0, 70)) + [96, 97, 128]:
+        for ep in ("ed_pub", "ecdsa_pub"):
+            for first in (0x04, 0x00):
+                cases.append({"op": "entry", "ep": ep, "data": {"hex": (bytes([first]) + bytes(max(0, n - 1)))[:n].hex()}, "meta": {"cls": "wellformed_degenerate_key"}})
+    return cases
+
+
 def gen_time_cases(rng, seeds):
     """every point in time the wire format can denote (years 0000-9999, fractions, leap seconds, offsets) and a few it cannot,
     as a layout's expiry and as build timestamps: a value or an error"""
@@ -629,6 +689,7 @@ def shard(binpath, seed, sh, n, env=None, runner=None, tag="native"):
     cases += gen_extreme_layout_cases(rng, W, common.HARNESS / "target" / "release" / "itv", sh, common.NPROC)
     if sh in (2, 3):
         cases += gen_time_cases(rng, seeds)
+        cases += gen_wellformed_key_cases(seeds)
     if sh == 5:
         cases += gen_failing_rule_message_cases()
     absdir = None
@@ -854,7 +915,7 @@ def main(ctx):
         fuzz_pass(ctx, res, 120)
     req = [f"ep:{e}:err" for e in ("metablock", "layout", "link", "pubkey_json", "spki", "pem_spki", "pk8", "pae_unpack", "keyid_str", "rule_json",
                                     "statement_json", "predicate_json", "envelope")] + \
-          ["ep:metablock:ok", "ep:pubkey_json:ok", "ep:spki:ok", "ep:pk8:ok", "ep:rules:ok", "ep:verify:err", "input:adversarial_json",
+          ["ep:metablock:ok", "ep:pubkey_json:ok", "ep:spki:ok", "ep:pk8:ok", "ep:rules:ok", "ep:verify:err", "input:adversarial_json", "input:wellformed_degenerate_key",
            "input:byte_mutation", "input:random_bytes", "input:hostile_link_dir", "input:rules_adversarial", "input:hostile_signed_layout",
            "input:large", "input:inspection_over_special_files", "input:extreme_signed_layout", "input:self_similar_sublayout_directory_loop", "input:self_similar_sublayout_under_absolute_step_name", "input:extreme_time_stamp", "input:failing_rule_with_long_non_ascii_report", "library_log_statements_formatted"]
     return common.finish(
